@@ -17,7 +17,7 @@ from vf import c02_gen as g
 
 RULE = ("networks with one 110 kV slack bus, 2-4 20 kV buses, 1-6 lines (per-km data, parallel 1-2, df, g, c, optional temperature "
         "correction, in/out of service, parallel lines), 1-2 two-winding transformers (tap changer Ratio/Symmetrical/Ideal/none on "
-        "hv/lv side, tap_step_degree 0/NaN/30/90/-60, shift 0/150/+-30, parallel, df, i0/pfe incl. 0 and the clipped case, leakage "
+        "hv/lv side, tap_step_degree 0/NaN/30/90/-60, shift 0/150/+-30, second tap changer tap2_* in 25 %, parallel, df, i0/pfe incl. 0 and the clipped case, leakage "
         "ratios), 0-1 three-winding transformers (terminal and star-point tap, loss side hv/mv/lv/star), impedance (shunt g/b at both "
         "ends), xward, impedance bus-bus switch, shunt, sgen; options trafo_model t/pi, trafo_loading current/power, "
         "calculate_voltage_angles on/off, consider_line_temperature, switch_rx_ratio, sn_mva 1/10/100, f 50/60; "
@@ -26,7 +26,7 @@ ASSUMPTIONS = ["runpp (Newton-Raphson) is an oracle: its voltages are inputs of 
                "sqrt/sin/cos/arctan/arcsin are oracle inputs computed by python math; the residuals of their defining equations are "
                "returned by the model and checked (<= 1e-6 absolute on values up to 1e4)",
                "lines connect buses of equal vn_kv (documented restriction of the line model)",
-               "tap2_* columns, TDPF, FACTS elements, 3W star-point taps with tap_step_degree other than 0/NaN are not generated"]
+               "TDPF, FACTS elements, tabular taps inside these nets (C31), 3W star-point taps with tap_step_degree other than 0/NaN are not generated"]
 TRUSTED = ["float reference implementation of the documented element models in harness/vf/c02_gen.py (ref_*)",
            "mapping ppc branch rows -> internal Yf/Yt rows through ppc['internal']['branch_is']"]
 # the defect C02-trafo3w-star-tap-nan-degree was repaired in /repo; its guard only feeds a histogram key now
@@ -56,6 +56,21 @@ def spec_oracle(ctx, d, net):
     for i, im in enumerate(d["imp"]):
         if im["in"]:
             _cmp_table(ctx, d, net, "res_impedance", i, g.ref_impedance(net, d, i), "impedance")
+    for i in range(len(net.shunt)):
+        _cmp_table(ctx, d, net, "res_shunt", i, g.ref_shunt(net, d, i), "shunt")
+    for i in range(len(net.ward)):
+        _cmp_table(ctx, d, net, "res_ward", i, g.ref_ward(net, d, i), "ward")
+    for i, x in enumerate(d["xward"]):
+        if x["in"]:
+            ref, p_src = g.ref_xward(net, d, i)
+            _cmp_table(ctx, d, net, "res_xward", i, ref, "xward (PQ + Z + voltage source behind r+jx)")
+            if abs(p_src) > 1e-6:
+                ctx.violation("spec", "xward %d: the internal voltage source delivers p = %.9g MW (documented: PV node with p_mw = 0)" % (i, p_src), d)
+    sw_idx = [j for j in net.switch.index if net.switch.et.at[j] == "b" and net.switch.closed.at[j] and net.switch.z_ohm.at[j] > 0]
+    for i, j in enumerate(sw_idx):
+        ref = g.ref_switch(net, d, i, j)
+        pos = list(net.switch.index).index(j)
+        _cmp_table(ctx, d, net, "res_switch", pos, ref, "impedance bus-bus switch")
     ctx.count("oracle_nets")
 
 
@@ -109,11 +124,11 @@ def dc_oracle(ctx, d, terms, pend):
 
 def expected_raise(d):
     for t in d["t2"]:
-        tp = t["tap"]
         if t["df"] <= 0:
             return "UserWarning"
-        if tp["type"] == "Ideal" and tp["side"] in ("hv", "lv") and (not g.isnan(tp["deg"]) and tp["deg"] != 0) and (not g.isnan(tp["pct"]) and tp["pct"] != 0):
-            return "UserWarning"
+        for tp in [t["tap"]] + ([t["tap2"]] if t.get("tap2") else []):
+            if tp["type"] == "Ideal" and tp["side"] in ("hv", "lv") and (not g.isnan(tp["deg"]) and tp["deg"] != 0) and (not g.isnan(tp["pct"]) and tp["pct"] != 0):
+                return "UserWarning"
     return None
 
 
@@ -163,6 +178,8 @@ def _one(ctx, d, terms, pend, sample=False):
     ctx.count("tmodel_" + d["opt"]["trafo_model"])
     for t in d["t2"]:
         ctx.count("tap_%s_%s" % (t["tap"]["type"], t["tap"]["side"]))
+        if t.get("tap2"):
+            ctx.count("tap2_%s" % t["tap2"]["type"])
     for w in d["t3"]:
         ctx.count("t3_star_%s" % w["star"])
     if g.star_nan_defect(d):
@@ -256,7 +273,7 @@ def run(ctx):
     for f in sorted(glob.glob(os.path.join(cq.VERIF, "corpus", "C02", "*.json"))):
         _one(ctx, json.load(open(f))["desc"], terms, pend, sample=True)
         ctx.count("corpus")
-    for k in range(ctx.n(90, 1500)):
+    for k in range(ctx.n(70, 1500)):
         _one(ctx, g.gen_desc(rng, passive=False), terms, pend, sample=(k < 2))
     model = ctx.coq_eval("c02", "Base.QN Base.QC C31.Model C02.Model C02.Run", terms, shard=25, timeout=900)
     _compare(ctx, pend, model)
